@@ -10,16 +10,14 @@ CONSTANTS
   Protos = {TRUE, FALSE}
   Faults <- DialFaults
   Spurious = FALSE
-  Durs <- Durs013
-  MaxT = 3
+  Durs <- Durs01
+  MaxT = 2
   RespFaults = FALSE
-  PreResp = TRUE
+  PreResp = FALSE
   Probe = FALSE
   AsBuiltT <- NoT
   GenDepth = 0
-INIT InitH
-NEXT NextH
+SPECIFICATION FairSpecH
 VIEW TView
-INVARIANTS TTypeOK TypeOK C19NotEarly C19InnerFirst C19ByDeadline TimerWakes C19Unchanged C19TimeoutOnlyIfPending C19Dropped NoOrphan PureHasOwner MarkerHasOwner C02state HandleUnique
-PROPERTIES C19Deadline C19NoLater
+PROPERTY C19Live
 CHECK_DEADLOCK FALSE
